@@ -352,6 +352,92 @@ Proof.
   repeat split; try (intros []; vm_compute; reflexivity); intros [[]|]; vm_compute; reflexivity.
 Qed.
 
+(** ** The attribute's level parser (tracing-attributes `impl Parse for Level`): string literals *)
+Lemma attr_names : forall s l, attr_parse_str s = Some l <-> map lower s = lname l.
+Proof.
+  intros s l. unfold attr_parse_str, gen_attr_scrutinee. cbn [fold_left apply_xf].
+  unfold gen_attr_name_arms, first_name.
+  (* the committed shape: `s if s.eq_ignore_ascii_case("name")` guards on the untransformed value; the equivalent
+     `match value.to_ascii_lowercase().as_str() { "name" => .. }` is accepted by the same proof *)
+  repeat match goal with
+  | |- context [eq_ic s ?lit] =>
+      let H := fresh "E" in
+      destruct (eq_ic s lit) eqn:H;
+      [apply (eq_ic_lower_lit s lit eq_refl) in H |
+       assert (map lower s <> lit) by (intros Hc; apply (eq_ic_lower_lit s lit eq_refl) in Hc; congruence); clear H]
+  | |- context [list_eqb (map lower s) ?lit] =>
+      let H := fresh "E" in
+      destruct (list_eqb (map lower s) lit) eqn:H;
+      [apply list_eqb_eq in H |
+       assert (map lower s <> lit) by (intros Hc; apply list_eqb_eq in Hc; congruence); clear H]
+  end;
+  (split; [intros Hx; inversion Hx; subst; simpl; assumption
+          | intros Hx; destruct l; simpl in Hx; try congruence]).
+Qed.
+
+(** it accepts exactly the *names* `Level::from_str` accepts, with the same meaning (for all byte strings) *)
+Lemma attr_agrees_with_from_str : forall s l,
+  parse_level s = Some l <-> (attr_parse_str s = Some l \/ numeral (code_lv l) s).
+Proof. intros s l. rewrite parse_language_level, attr_names. tauto. Qed.
+
+(** integer literals: exactly 1..5, each level has one, and the assignment is monotone or (as committed) reversed *)
+Lemma attr_int_language :
+  (forall n l, attr_parse_int n = Some l -> 1 <= n <= 5) /\
+  (forall n, 1 <= n <= 5 -> exists l, attr_parse_int n = Some l) /\
+  (forall l, exists n, attr_parse_int n = Some l) /\
+  ((forall n l, attr_parse_int n = Some l -> rank_lv l = n) \/
+   (forall n l, attr_parse_int n = Some l -> rank_lv l + n = 6)).
+Proof.
+  assert (Hcases : forall n l, attr_parse_int n = Some l ->
+            (n = 1 \/ n = 2 \/ n = 3 \/ n = 4 \/ n = 5) /\ attr_parse_int n = Some l).
+  { intros n l H. split; [|exact H]. unfold attr_parse_int, gen_attr_int_arms, assocN in H.
+    destruct (n <=? gen_attr_int_max); [|discriminate].
+    repeat match type of H with context [n =? ?k] => destruct (N.eqb_spec n k) end; try discriminate; tauto. }
+  split; [|split; [|split]].
+  - intros n l H. destruct (Hcases n l H) as [Hn _]. lia.
+  - intros n Hn. assert (Hc : n = 1 \/ n = 2 \/ n = 3 \/ n = 4 \/ n = 5) by lia.
+    destruct Hc as [->|[->|[->|[->| ->]]]]; eexists; vm_compute; reflexivity.
+  - intros []; first [exists 1; reflexivity | exists 2; reflexivity | exists 3; reflexivity
+                     | exists 4; reflexivity | exists 5; reflexivity].
+  - first [ left; intros n l H; destruct (Hcases n l H) as [[->|[->|[->|[->| ->]]]] H'];
+            vm_compute in H'; inversion H'; reflexivity
+          | right; intros n l H; destruct (Hcases n l H) as [[->|[->|[->|[->| ->]]]] H'];
+            vm_compute in H'; inversion H'; reflexivity ].
+Qed.
+
+(** ** Who publishes the maximum: the fold in callsite.rs `rebuild_interest` *)
+Lemma pub_step_spec : forall acc h,
+  pub_step acc h = Some (if rank (VF acc) <? rank (VF (hint_of h)) then hint_of h else acc).
+Proof. intros [[]|] [[[]|]|]; vm_compute; reflexivity. Qed.
+
+Lemma hint_rank : forall h,
+  rank (VF (hint_of h)) = rank (VF (match h with Some f => f | None => Some Trace end)).
+Proof. intros [f|]; reflexivity. Qed.
+
+Lemma pub_fold_spec : forall hs acc, exists m, pub_fold acc hs = Some m /\
+  rank (VF m) = fold_left N.max
+    (map (fun h => rank (VF (match h with Some f => f | None => Some Trace end))) hs) (rank (VF acc)).
+Proof.
+  induction hs as [|h hs IH]; intros acc.
+  - exists acc. split; reflexivity.
+  - cbn [pub_fold map fold_left]. rewrite pub_step_spec.
+    destruct (IH (if rank (VF acc) <? rank (VF (hint_of h)) then hint_of h else acc)) as (m & Hm & Hr).
+    exists m. split; [exact Hm|]. rewrite Hr. f_equal. rewrite <- hint_rank.
+    destruct (N.ltb_spec (rank (VF acc)) (rank (VF (hint_of h)))); lia.
+Qed.
+
+(** after a rebuild, `current()` is the greatest hint of the live dispatchers (no hint counts as TRACE, none at all is OFF) *)
+Lemma published_max : forall hs, exists m, published hs = Some m /\ rank (VF m) = spec_max hs.
+Proof.
+  intros hs. unfold published, spec_max.
+  destruct (pub_fold_spec hs gen_pub_init) as (m & Hm & Hr). rewrite Hm.
+  exists m. split; [apply max_roundtrip | exact Hr].
+Qed.
+
+(** the sequential statement above applies to the implementation because `set_max` has a single, serialised writer *)
+Lemma pub_exclusive : gen_pub_exclusive = true.
+Proof. reflexivity. Qed.
+
 (** ** Non-vacuity examples *)
 Example ex_parse_mixed_case : parse_level [87; 97; 82; 110] = Some Warn. (* "WaRn" *)
 Proof. reflexivity. Qed.
@@ -361,3 +447,16 @@ Example ex_parse_overflow : parse_level [49;56;52;52;54;55;52;52;48;55;51;55;48;
 Proof. reflexivity. Qed.
 Example ex_numeral : numeral 3 [43; 48; 48; 51].
 Proof. exists [43], 2%nat. split; [right; reflexivity | reflexivity]. Qed.
+Example ex_attr_mixed_case : attr_parse_str [105; 78; 102; 79] = Some Info. (* "iNfO" *)
+Proof. reflexivity. Qed.
+Example ex_attr_dotless_i : attr_parse_str [196; 177; 110; 102; 111] = None /\ parse_level [196; 177; 110; 102; 111] = None. (* U+0131 "nfo" *)
+Proof. split; reflexivity. Qed.
+Example ex_attr_digit_string : attr_parse_str [51] = None /\ parse_level [51] = Some Info. (* "3": a numeral, not a name *)
+Proof. split; reflexivity. Qed.
+Example ex_attr_int : attr_parse_int 1 = Some Trace /\ attr_parse_int 0 = None /\ attr_parse_int 6 = None
+                      /\ attr_parse_int 18446744073709551617 = None.
+Proof. repeat split; reflexivity. Qed.
+Example ex_published : published [Some (Some Warn); None; Some None] = Some (Some Trace)
+                       /\ published [Some (Some Warn); Some (Some Error)] = Some (Some Warn)
+                       /\ published [] = Some None.
+Proof. repeat split; reflexivity. Qed.
